@@ -382,6 +382,32 @@ fn apply_alignment(
         if all_cols.is_empty() {
             continue;
         }
+        // The columns are re-derived from the AST and can miss parts of a line (a `(partial)` flag,
+        // a parenthesized type, a type continued on `---|` lines, …). Aligning with such columns
+        // would rewrite the annotation, so the group is left as rendered unless every line is
+        // reproduced exactly, blanks aside.
+        let lossless = group.iter().zip(&all_cols).all(|(&li, cols)| {
+            let rendered: String = result[li]
+                .iter()
+                .skip(1)
+                .map(|doc| match doc {
+                    DocIR::Text(text) => text.as_str(),
+                    DocIR::SourceToken(token) => token.text(),
+                    _ => "",
+                })
+                .flat_map(|text| text.chars())
+                .filter(|ch| !ch.is_whitespace())
+                .collect();
+            let rebuilt: String = cols
+                .iter()
+                .flat_map(|col| col.chars())
+                .filter(|ch| !ch.is_whitespace())
+                .collect();
+            rendered == rebuilt
+        });
+        if !lossless {
+            continue;
+        }
         let ncols = all_cols.iter().map(|c| c.len()).max().unwrap_or(0);
         let mut widths = vec![0usize; ncols];
         for cols in &all_cols {
